@@ -574,7 +574,13 @@ def replay_kernels(run, V, recs, single_every):
             else:
                 q = int(np.prod(grid))
                 variants.append((tag, M[:q].reshape(grid + (m, n)), cases[:q], grid))
+        # columns multiplied by Gaussian units u_j (1, i, -1, -i, ...): the kernel of M diag(u) is diag(u)^-1 ker M, so the
+        # exact kernel of the complex matrix is the spec's integer basis times conj(u) (complex spans: Subspace.intersect
+        # over C rests on this)
+        units = np.array([1, 1j, -1, -1j, 1j, -1][:n] if n <= 6 else [1j ** k for k in range(n)], dtype=complex)
+        variants.append(("vector/columns times Gaussian units", M * units, cases, (len(cases),)))
         for i in range(0, len(cases), single_every):
+            variants.append(("unit/columns times Gaussian units", M[i] * units, cases[i:i + 1], ()))
             variants.append(("unit", M[i], cases[i:i + 1], ()))
             variants.append(("unit/rows scaled", Msc[i], cases[i:i + 1], ()))
         for tag, arg, cs, shp in variants:
@@ -597,10 +603,12 @@ def replay_kernels(run, V, recs, single_every):
             with np.errstate(all="ignore"):
                 # row by row, relative to the size of the row (a zero row gives exactly 0)
                 ann = (np.abs(A @ K).max(axis=-1) <= 1e-8 * np.abs(A).max(axis=-1)).all(axis=-1)
-                on = np.abs(K.swapaxes(-1, -2) @ K - np.eye(dim)).max(axis=(-1, -2)) <= TOL
+                on = np.abs(K.conj().swapaxes(-1, -2) @ K - np.eye(dim)).max(axis=(-1, -2)) <= TOL
                 # every vector of the exact integer basis lies in the span of the returned basis
                 S = np.array([c["ker"] for c in cs], dtype=float)          # (B, dim, n)
-                proj = (S @ K) @ K.swapaxes(-1, -2)
+                if "Gaussian" in tag:
+                    S = S * units.conj()
+                proj = (S @ K.conj()) @ K.swapaxes(-1, -2)
                 span = np.abs(proj - S).max(axis=(-1, -2)) <= 1e-8 * np.maximum(1.0, np.abs(S).max(axis=(-1, -2)))
             for mask, clause in ((ann, "kernel.annihilated"), (on, "kernel.orthonormal"), (span, "kernel.spans_exact_kernel")):
                 for j in np.nonzero(~mask)[0][:2]:
